@@ -3,7 +3,7 @@
    is walked to exactly its generated chain. *)
 From Coq Require Import Lia.
 From RM Require Import Base.Word C06.Model C06.Proofs C07.Model C07.Walker C07.WalkerFd C07.Proofs C07.Proofs2 C07.Proofs3
-                       C07.Proofs6 C07.Proofs7 C07.Proofs11 C07.Proofs18.
+                       C07.Proofs6 C07.Proofs7 C07.Proofs11 C07.Proofs13 C07.Proofs18.
 Import ListNotations.
 Open Scope Z_scope.
 
@@ -108,4 +108,38 @@ Proof.
   assert (Hi : win_initial_vars E i e = win_initial_vars E i e') by (unfold win_initial_vars; rewrite Ha; reflexivity).
   assert (Hf : win_final_vars p E i e = win_final_vars p E i e') by (unfold win_final_vars; rewrite Hi, Ht; reflexivity).
   split; [exact Hf|]. intros. unfold walk_win_framedata. rewrite Hf. reflexivity.
+Qed.
+
+(* ---- all three kinds of record ---- *)
+Theorem win_recovers_chain_bp : forall mem in_stack lookup (acts : list act_bp) below eip esp ebp,
+  win_layout_bp mem in_stack lookup (is_nil below) (spec_gcps below) eip esp ebp acts ->
+  0 <= esp ->
+  win_walk (length acts) mem in_stack lookup below (mkX eip esp ebp) = fpo_chain_bp (spec_gcps below) esp acts.
+Proof.
+  intros mem in_stack lookup acts. induction acts as [|[[[i ps] ra] bp'] rest IH]; intros below eip esp ebp HL Hesp.
+  - reflexivity.
+  - cbn [win_layout_bp] in HL.
+    destruct HL as (Hl & His & Hfs & Hl0 & Hs0 & Hg0 & Hm & Hra & Htop & Hthing & Hbp32 & Hrest).
+    cbn [length win_walk fpo_chain_bp x_esp x_eip].
+    replace (match below with [] => true | _ :: _ => in_stack esp end) with true
+      by (destruct below; [reflexivity|symmetry; apply His; reflexivity]).
+    rewrite Hl.
+    set (F := w_locals i + w_saved i + spec_gcps below) in *.
+    assert (Hstep : win_xstep mem below (mkSF ps) (mkX eip esp ebp) i = Some (mkX ra (esp + F + 4) bp')).
+    { destruct (w_thing i) as [e|abp] eqn:Et.
+      - destruct Hthing as (He & Hb & Hb0). subst e bp'.
+        apply (fd_step_ok mem below (mkSF ps) (mkX eip esp ebp) i F ra); cbn [x_esp x_ebp x_eip]; try assumption; lia.
+      - unfold win_xstep. rewrite Et. cbv zeta iota.
+        apply (fpo_step_plain mem below (mkSF ps) (mkX eip esp ebp) i abp ra bp' Et); cbn [x_esp x_ebp x_eip];
+          try assumption; try lia.
+        + destruct below as [|g t]; [right; destruct abp; apply Hthing; reflexivity|left; discriminate].
+        + destruct abp; [exact (proj2 Hthing)|exact (proj2 Hthing)]. }
+    rewrite Hstep. cbn [x_eip x_esp].
+    replace (ra <? 4096) with false by (symmetry; apply Z.ltb_ge; lia).
+    replace (esp + F + 4 <=? esp) with false by (symmetry; apply Z.leb_gt; lia).
+    cbn [orb]. f_equal.
+    specialize (IH (below ++ [mkSF ps]) ra (esp + F + 4) bp').
+    rewrite spec_gcps_snoc in IH.
+    replace (is_nil (below ++ [mkSF ps])) with false in IH by (destruct below; reflexivity).
+    apply IH; [exact Hrest|lia].
 Qed.
